@@ -145,7 +145,7 @@ type HEntry struct {
 
 // PObs is one reported package.
 type PObs struct {
-	File   int  `json:"file"`  // Locations[0] as reported (ScanResult sorts every package's Locations)
+	File   int  `json:"file"`  // Locations[0] as reported (= the source file since fix 57324273)
 	Extra  int  `json:"extra"` // 1-based index of Locations[1], 0 = none
 	Src    int  `json:"src"`   // the file the package was extracted from (the extractor records it in Metadata)
 	InBase bool `json:"in_base_image"`
